@@ -5,6 +5,7 @@
    (2) at both call sites the pointers cover `size` cells: the model's bounds assertion
        (Internal 150) and length assertion (Internal 101) never fire. *)
 From BigNum Require Import Base BaseLemmas X86 AddSub SpecAddSub AddSubProofs AsmProofs Extracted InstAddSub.
+From BigNum Require Import Div DivProofs DivProofsApi InstDiv Rand SpecRand RandProofs.
 Open Scope Z_scope.
 
 Theorem C15_asm_add_bounds : forall a b size, wf a -> wf b ->
@@ -75,6 +76,27 @@ Proof.
   - right. apply Hlt. lia.
 Qed.
 Print Assumptions C15_sub2_call_site.
+
+(* Hardware divide: `div_wide` faults (SIGFPE) unless hi < divisor.  The model carries that
+   precondition as the live check `Internal 301`; division of any canonical operands by any
+   non-zero canonical divisor returns, so the check never fires at any of its call sites
+   (single-digit division, the Knuth-D trial quotient, rem_digit). *)
+Theorem C15_div_wide_precondition : forall a b, canon a -> canon b -> val b <> 0 ->
+  udivrem Extracted.div a b = Ret (enc (val a / val b), enc (val a mod val b)).
+Proof.
+  intros a b Ha Hb Hn. rewrite udivrem_spec by auto using div_params_ok.
+  destruct (Z.eqb_spec (val b) 0); [contradiction|reflexivity].
+Qed.
+Print Assumptions C15_div_wide_precondition.
+
+(* The u64 buffer viewed as u32 words in gen_biguint: for every bit size and every stream that
+   holds enough words the generator returns (no index or length assertion of the model fires)
+   a value below 2^n built from exactly nwords(n) words. *)
+Theorem C15_rand_u32_view : forall n ws rest, 0 <= n -> words ws -> words rest ->
+  Z.of_nat (length ws) = nwords n ->
+  gen_biguint n (ws ++ rest) = Ret (enc (cand n ws), rest) /\ 0 <= cand n ws < 2 ^ n.
+Proof. intros; apply gen_biguint_words; auto. Qed.
+Print Assumptions C15_rand_u32_view.
 
 Example C15_nonvacuous : wfb [1; 2; 3; 4; 5; 6] = true /\ 1 <= 6 / ap_blk addsub.
 Proof. split; vm_compute; [reflexivity|discriminate]. Qed.
